@@ -7,11 +7,20 @@
 //	      (VFS calls on the FailFS, File methods on pooled handles, every call
 //	      again through a pooled Sub file system) on failfs.New(base) in
 //	      lock-step with a twin base driven directly; plans "none" (FailFS as
-//	      constructed) and "okfunc" (a recording always-nil failure function).
+//	      constructed) and "okfunc" (a recording always-nil failure function
+//	      that overwrites every field of the *FailParam it was handed after
+//	      reading it - the block is the function's, sys.go scribbleParam - as
+//	      does the function of the single-fault plans of (ii)).
 //	      Oracle: outcome kind+value and the injected dump of the base equal on
 //	      both sides after every call; in the okfunc plan additionally every
 //	      directly invoked method consults its own FnVFS id before any base
-//	      effect.
+//	      effect, and every change of the base made by a composite the property
+//	      lists (Create, WriteFile, ReadFile, ReadDir, Glob, MkdirTemp) follows
+//	      the consultation of a PRIMITIVE id (kind effect-without-primitive,
+//	      sys.go builtOnPrimitives): a primitive that is never put to the
+//	      function cannot be made to fail. The alphabet holds the argument
+//	      values that select a default (empty dir, empty pattern of the temp
+//	      calls).
 //	(ii)  fault enumeration (fault.go): for every history up to a bound, its
 //	      consultation trace c_0..c_{n-1}; for every k and every error E of a
 //	      2-element set a fresh run with the plan "consultation k returns E".
@@ -1060,7 +1069,7 @@ func main() {
 		Coverage: map[string]any{
 			"evaluations":         runs,
 			"distinct_nontrivial": len(classes),
-			"rule": "evaluations = executions of a whole history on fresh real instances in part (ii): one fault-free run per history (recording always-nil failure function, " +
+			"rule": "evaluations = executions of a whole history on fresh real instances in part (ii): one fault-free run per history (recording always-nil failure function that overwrites its *FailParam after reading it, " +
 				"lock-step with the twin base) + one run per (consultation index k of its trace, error E in {private sentinel, *fs.PathError{ErrPermDenied}, *fs.PathError{ErrNoSuchFileOrDir} (an fs.ErrNotExist error, the kind composites branch on)}), " +
 				"each in lock-step with a twin base that skips the failed call; plus the handle programmes: one fault-free run per (opening prefix, File method F) and one run " +
 				"'prefix; F with consultation k returning E; G; Close' per (prefix, F, k, E, File method G), counted in single_fault_runs as well; " +
@@ -1078,6 +1087,22 @@ func main() {
 				"single_fault_runs":            hruns,
 				"twin_followed_to_the_end":     hfollowed,
 				"openflag_alphabet_every_path": flagStrings(),
+			},
+			"parameter_block": map[string]any{
+				"lesson": "the failure function is code of the user's and receives a POINTER to the parameter block: besides answering it may write to the block. The block is the function's copy of the arguments; " +
+					"what the base executes and what an error reports are the arguments of the caller. Code that forwards fp.Path instead of its own argument is right for every function that only reads",
+				"how": "every recording function of the harness (recording plan, single-fault plans; on the FailFS under test, on the lower FailFS of a plan stack, through any member of a family; before and after SetFailFunc replaces it) " +
+					"overwrites every field of *FailParam (Op, Path, NewPath, Perm, Flag, Uid, Gid, Size, ATime, MTime) after rendering it into the trace, whether it then answers nil or E",
+				"oracle":      "unchanged: a let-through call behaves exactly as on the twin base (outcome kind and value, base state), a refused call returns exactly E and leaves the base untouched",
+				"not_covered": "the concurrent read-only pass and the read-only plan use functions that only read the block (failfs.ReadOnlyFunc is the library's)",
+			},
+			"effect_attribution": map[string]any{
+				"lesson": "an effect on the base is the work of a primitive, and a fault plan can only make fail what IS consulted: a composite that short-cuts to the base (for some argument values: the empty dir that selects the default temp directory) " +
+					"never puts the primitive to the failure function, so that a function refusing FnMkdir and not FnMkdirTemp is bypassed - visible only on the fault-free trace",
+				"oracle": "recording plan, every call of Create, WriteFile, ReadFile, ReadDir, Glob, MkdirTemp made directly on the FailFS or a Sub view: the base state is taken at every consultation and at return; " +
+					"a change is attributed to the consultation that precedes it; kind effect-without-primitive if that is the id of a composite (FnMkdirTemp, FnCreateTemp, FnReadDir, FnReadFile, FnWriteFile, FnWalkDir) or if there is none",
+				"default_selecting_arguments": []string{"CreateTemp(\"\", \"t*\")", "MkdirTemp(\"\", \"m*\")", "CreateTemp(\"\", \"\")", "MkdirTemp(\"\", \"\")"},
+				"not_covered":                 "CreateTemp and WalkDir are not in the property's list of composites built on primitives (FailFS.CreateTemp consults FnCreateTemp and leaves the rest to the base): nothing is demanded of their traces",
 			},
 			"fault_classes":         classNames,
 			"plans_injected_per_fn": injNames,
@@ -1146,7 +1171,9 @@ func main() {
 				"(iv) stacked and wrapped bases, same alphabet, twin = the wrapped base driven directly (twin stacks) or the bare base (plan stacks): engine A %s; fault enumeration %s; "+
 				"(vi) moment of SetFailFunc, same alphabet: engine A %s; fault enumeration %s; "+
 				"(vii) depth of derivation, same alphabet (which includes Sub of the pooled view), start states whose pool holds the view dN = root.Sub(\"/\")...Sub(\"/\") (N Sub calls), "+
-				"SetFailFunc called on the member named (root, v1..vN, a sibling w of vN), .pre = before the rest of the family is derived, MemFS: engine A %s; fault enumeration %s",
+				"SetFailFunc called on the member named (root, v1..vN, a sibling w of vN), .pre = before the rest of the family is derived, MemFS: engine A %s; fault enumeration %s; "+
+				"(viii) in every recording and single-fault plan above the failure function overwrites its *FailParam after reading it, and the temp calls are enumerated with the arguments that select a default "+
+				"(dir \"\" with patterns \"t*\"/\"m*\" and \"\") besides every named directory; every base effect of a listed composite is attributed to the consultation that precedes it",
 				bfsDepth, depthDone, len(flagSets), len(nsPaths), faultHist, histDone, strings.Join(handlePres, ", "), len(fileCalls()),
 				strings.Join(bfsStackNames, ", "), stackFaultBound, strings.Join(whenBfsNames, ", "), whenFaultBound,
 				strings.Join(famBfsNames, "; "), famFaultBound),
@@ -1154,6 +1181,8 @@ func main() {
 		},
 		Assumptions: []string{
 			"one fault per run; errors injected: a private errors.New sentinel and &fs.PathError{Op:\"x\",Path:\"y\",Err:avfs.ErrPermDenied}",
+			"the recording and single-fault functions of the harness overwrite the whole *FailParam after reading it (one fixed garbage value per field: nonexistent paths /scribbled/old, /scribbled/new, complemented Perm/Flag/Size, negative ids, fixed times); " +
+				"a function that edits the block into OTHER values that happen to name existing objects is not enumerated separately",
 			"base state = injected node-graph dump (names, types, permission bits, owners, bytes, link counts, hard-link classes, link targets) + cwd + umask + current user of the base; " +
 				"the read-only plan adds the modification time of every entry and ignores cwd/umask/user, which the statement does not list",
 			"state of the base handle behind a FailFile (open/closed, offset, directory position) is not observable directly: 'untouched' is checked on the file system state when the failure is injected, " +
